@@ -36,6 +36,7 @@ DECIDED = [
     "C19.5 unsupported local/remote/peer/auth types raise ValueError",
     "C19.6 connects_nodes is symmetric in its arguments; on_the_left / on_the_right agree under left<->right",
     "C19.7 configure_on_endpoint uses the mirrored tuple for the right node and raises for a foreign node",
+    "C19.8w the only tunnel parameters pre-set outside the constructor are the mirrored remote-net overrides of a forwarding hop",
 ]
 NOT_DECIDED = ["(nothing of the statement depends on runtime quantities beyond the opaque values; the mirror is structural)"]
 MIN_INSTANCES = 10
